@@ -112,3 +112,14 @@ Theorem C16_cancel_preserves_soundness : forall U, touch_set U ->
     analyze_cancel gen_basis cfg' k' sk p' = (sk', (pv, v, d, acc, c)) -> sound_verdict gen_basis p' v.
 Proof. exact cancel_preserves_soundness_inst. Qed.
 Print Assumptions C16_cancel_preserves_soundness.
+
+
+(* ---- the dedup-capable model (SearchDedup.v, SearchDedupSound.v): soundness survives a cancellation there too ---- *)
+Require SearchDedup SearchDedupSound.
+Theorem C16_cancel_preserves_soundness_dedup : forall U, SearchDedupSound.touch_set_d U ->
+  forall s cfg k dedup p sk r, SearchDedupSound.engine_sd U s -> c_nonull cfg = true -> builtin_eval cfg -> SearchDedupSound.ask_sd U cfg p ->
+  SearchDedup.analyze_gen_d gen_basis cfg k dedup s p = (sk, r) ->
+  forall cfg' k' dedup' p' sk' pv v d acc c, c_nonull cfg' = true -> builtin_eval cfg' -> SearchDedupSound.ask_sd U cfg' p' ->
+    SearchDedup.analyze_gen_d gen_basis cfg' k' dedup' sk p' = (sk', (pv, v, d, acc, c)) -> sound_verdict gen_basis p' v.
+Proof. exact SearchDedupSound.cancel_preserves_soundness_d. Qed.
+Print Assumptions C16_cancel_preserves_soundness_dedup.
